@@ -13,6 +13,8 @@ def classify(sig, what):
         return 'L4: additionalProperties declared next to properties is generated as a map field tagged json:"-" with custom (un)marshallers; the scanner does not read it back.'
     if kw.startswith('enum[] (differs: number became string)'):
         return 'L7: non-string enum values are emitted in the doc comment as JSON and read back by the scanner as strings (1 becomes "1").'
+    if 'exponent-notation' in sig:
+        return 'L11: a numeric bound that Go prints in exponent notation (maximum: 1e+21) is emitted in the doc comment as "Maximum: 1e+21", which the scanner grammar does not read (the existing test TestSchemaValueExtractors pins that "2e10" is not a number for the scanner, so a repair of the regular expression was reverted): the bound is lost (' + kw + ' at ' + site + ').'
     if zero:
         return 'L8: zero-valued constraints (maximum: 0, minimum: 0, minLength: 0, maxLength: 0) are not emitted in the doc comments (the templates test {{ if .Maximum }}), so the scanned schema loses them (' + kw + ' at ' + site + ').'
     if kw.startswith('multipleOf') and site == 'property':
